@@ -12,6 +12,7 @@ PROP = {
         "quick": [B("stable"), B("nightly", 0.25, False)],
         "thorough": [B("stable"), B("fma", 0.5), B("nightly", 0.5, False)],
     },
+    "volume": {"quick": 4},
     "technique": "property-based testing: exhaustive small-integer matrix sweeps and proptest generators (integer lattice, prescribed-condition-number, TRS, dense) against an exact i128 / f64 / double-double "
                  "reference cofactor expansion written in the harness, in the SSE2, scalar-math, nightly core-simd (and +fma) builds of the working tree",
     "level_text": "Generated-input search: all 83 521 2x2 integer matrices with entries in [-8,8] and the 3x3 matrices with entries in [-2,2] (1/16 strided in quick, all 1 953 125 in thorough), plus random "
